@@ -166,6 +166,18 @@ PROPS["C10"] = {"theorems": [], "run": _run_schema, "replay": _replay_schema,
                         "to_named_json_schema with arbitrary names / ref locations; non-trivial = a schema was produced"}
 
 
+def _run_ann(pid: str, tier: str, seed: int, spec: dict, scale: float = 1.0, salt: str = "") -> dict:
+    from . import ann_stream
+    return ann_stream.run(pid, tier, seed, spec, scale, salt)
+
+
+PROPS["C07"] = {"theorems": [], "run": _run_ann,
+                "rule": "annotations generated from the supported grammar to depth 3 (generated dataclass / NamedTuple / "
+                        "TypedDict classes with random fields, defaults, totality) x 6 (quick) / 12 (thorough) values each: "
+                        "conforming, conforming except at one position, arbitrary; non-trivial = the derived validator "
+                        "accepted the value"}
+
+
 def run_core(pid: str, tier: str, seed: int, spec: dict, scale: float = 1.0, salt: str = "") -> dict:
     n = int((spec["quick_n"] if tier == "quick" else spec["thorough_n"]) * scale)
     opts = dict(spec.get("opts", {}))
